@@ -317,7 +317,13 @@ CORPUS = [
     ('supervisor.tailProcessStdoutLog', ('g1:p2', 0, 100)), ('supervisor.tailProcessLog', ('g1:p1', 0, 16)),
     ('supervisor.tailProcessStderrLog', ('g1:p1', 0, 100)), ('supervisor.readProcessStderrLog', ('g2:q1', 0, 0)),
     ('supervisor.readProcessStderrLog', ('g1:p1', -4, 0)), ('supervisor.readLog', (0, 0)), ('supervisor.readMainLog', (-10, 0)),
-    ('supervisor.readLog', (5, -1)), ('supervisor.clearLog', ()), ('supervisor.reloadConfig', ()),
+    ('supervisor.readLog', (5, -1)), ('supervisor.clearLog', ()),
+    # log files that exist but cannot be opened (a directory; EACCES): read* -> FAILED, tail* -> ['', offset, False]
+    ('supervisor.readProcessStderrLog', ('g1:p2', 0, 0)), ('supervisor.tailProcessStderrLog', ('g1:p2', 0, 100)),
+    ('supervisor.tailProcessStderrLog', ('g1:p2', 7, 0)), ('supervisor.readProcessStdoutLog', ('g2:q1', 0, 0)),
+    ('supervisor.readProcessLog', ('g2:q1', 0, 5)), ('supervisor.tailProcessStdoutLog', ('g2:q1', 0, 100)),
+    ('supervisor.tailProcessLog', ('g2:q1', 3, 1)), ('supervisor.tailProcessStdoutLog', (GRU + ':' + DIE, 0, 10)),
+    ('supervisor.readMainLog', (0, 0)), ('supervisor.readLog', (0, 20)), ('supervisor.reloadConfig', ()),
     ('supervisor.addProcessGroup', ('newgrp',)), ('supervisor.addProcessGroup', ('g1',)),
     ('supervisor.removeProcessGroup', ('g2',)), ('supervisor.removeProcessGroup', ('g1',)), ('supervisor.removeProcessGroup', ('solo',)),
     ('supervisor.getProcessInfo', ('g1:p1',)), ('supervisor.getProcessInfo', ('solo',)), ('supervisor.getAllProcessInfo', ()),
@@ -464,6 +470,60 @@ def shape_ok(method, sig, params, value):
     return False
 
 
+# trailing parameters a client may omit (mirror of optional_trailing in coq/C12/RpcProofs.v, where
+# c12_arity_documented ties the source's arity range to the docstring's @param list)
+OPTIONAL_TRAILING = {'supervisor.startProcess': 1, 'supervisor.startProcessGroup': 1, 'supervisor.startAllProcesses': 1,
+                     'supervisor.stopProcess': 1, 'supervisor.stopProcessGroup': 1, 'supervisor.stopAllProcesses': 1}
+
+
+def documented_arity(method, sig):
+    n = len(sig) - 1
+    return n - OPTIONAL_TRAILING.get(method, 0), n
+
+
+def explore_arity(chk, pool, facts, counters):
+    """Every published method with zero arguments, one too few, one too many
+    (well-typed prefixes / a surplus string), directly and as a multicall
+    element, in every mood: INCORRECT_PARAMETERS and nothing happens.  The
+    expected arity is the DOCUMENTED one (system.methodSignature)."""
+    from c12_world import MOODS
+    from supervisor.xmlrpc import Faults
+    pnames = live_param_names(facts)
+    rng = chk.rng
+    n = 0
+    for method in facts['listed']:
+        sig = facts['signatures'][method]
+        if sig is None:
+            continue
+        dmin, dmax = documented_arity(method, sig)
+        full = tuple(gen_value(rng, pnames[method][i] if i < len(pnames[method]) else 'x', sig[1 + i], method)
+                     for i in range(dmax))
+        if 'name' in pnames[method][:1] and method.startswith('supervisor.'):
+            full = ('g1:p1',) + full[1:]
+        wrong = set([0, dmin - 1, dmax + 1, dmax + 2]) - set(range(dmin, dmax + 1))
+        for k in sorted(x for x in wrong if x >= 0):
+            params = full[:k] if k <= dmax else full + ('extra',) * (k - dmax)
+            for moodname, mood in MOODS:
+                for path in ('direct', 'xml', 'multicall'):
+                    if path == 'multicall':
+                        if method == 'system.multicall':
+                            continue
+                        res, _, changed, reached = observe(pool, 0, mood, 'system.multicall',
+                                                           ([{'methodName': method, 'params': list(params)}],), 'xml')
+                        el = _element(res)
+                        res = el if el is not None else res
+                    else:
+                        res, _, changed, reached = observe(pool, 0, mood, method, params, path)
+                    n += 1
+                    chk.dist('arity-sweep:%s' % path)
+                    if res != ('fault', Faults.INCORRECT_PARAMETERS) or changed:
+                        chk.violation({'kind': 'a call with a wrong number of arguments was not answered INCORRECT_PARAMETERS',
+                                       'method_name': method, 'params': repr(params), 'documented_signature': sig,
+                                       'documented_arity': [dmin, dmax], 'mood': moodname, 'path': path,
+                                       'answer': repr(res), 'state_changed': changed})
+    return n
+
+
 def explore_args(chk, pool, facts, cases, meta, counters):
     from c12_world import MOODS, N_WORLDS
     from supervisor.xmlrpc import Faults
@@ -509,6 +569,10 @@ def explore_args(chk, pool, facts, cases, meta, counters):
                     rec = {'method_name': method, 'params': repr(params), 'mood': moodname, 'variant': variant,
                            'direct': repr(res), 'xml': repr(res2), 'state_changed': changed}
                     chk.dist('args:%s:%s' % (moodname, 'wrong-arity' if not (amin <= len(params) and (amax is None or len(params) <= amax)) else 'arity-ok'))
+                    if params and isinstance(params[0], str) and 'name' in names[:1]:
+                        st = layout_states(variant).get(params[0])
+                        if st is not None:
+                            counters.setdefault('_cells', set()).add((method, mood, st))
                     # known finding: undecodable log window
                     if known_utf8(method, res, res2):
                         counters['utf8'] = counters.get('utf8', 0) + 1
@@ -535,10 +599,6 @@ def explore_args(chk, pool, facts, cases, meta, counters):
                         continue
                     if polls:
                         counters['deferred'] = counters.get('deferred', 0) + 1
-                    if params and isinstance(params[0], str) and 'name' in names[:1]:
-                        st = layout_states(variant).get(params[0])
-                        if st is not None:
-                            counters.setdefault('_cells', set()).add((method, mood, st))
                     if res2 is not None and any(ord(ch) > 127 for ch in repr(res[1]) + (repr(params) if res[0] == 'fault' else '')):
                         k = 'non-ascii-answer:%s:%s' % ('deferred' if polls else 'immediate', res[0])
                         counters[k] = counters.get(k, 0) + 1
@@ -580,6 +640,10 @@ def gen_calls(rng, listed):
         ('supervisor.stopProcessGroup', [GRU]), ('supervisor.getProcessInfo', [GRU + ':' + PRO]),
         ('supervisor.getProcessInfo', [u'n\u00f6pe']), ('supervisor.readLog', [0, 0]),
         ('supervisor.getAllConfigInfo', []), ('supervisor.signalProcess', [GRU + ':' + PRO, u'B\u00d6GUS']),
+        # logs that exist but cannot be opened
+        ('supervisor.tailProcessStderrLog', ['g1:p2', 0, 100]), ('supervisor.tailProcessStdoutLog', ['g2:q1', 0, 10]),
+        ('supervisor.tailProcessLog', ['g2:q1', 5, 5]), ('supervisor.readProcessStderrLog', ['g1:p2', 0, 0]),
+        ('supervisor.readProcessStdoutLog', ['g2:q1', 0, 10]), ('supervisor.readLog', [0, 20]),
         # refused / faulting
         ('supervisor._update', ['x']), ('nope.nope', []), ('supervisor', []), ('supervisor.getState.__call__', []),
         ('supervisor.getState', ['extra']), ('supervisor.startProcess', []), ('', []), ('__class__.__init__', []),
@@ -1001,7 +1065,7 @@ def _run(chk, wd, proved):
     t2 = time.time()
     multi_cases, multi_meta = [], []
     n_multi = explore_multicall(chk, logdir, ref, multi_cases, multi_meta, counters)
-    n_ext = explore_ext(chk, wd, logdir, ref, counters)
+    n_ext = explore_ext(chk, wd, logdir, ref, counters) + explore_arity(chk, pool, facts, counters)
     n_http = explore_http(chk, wd, logdir, ref, counters)
     t3 = time.time()
     chk.note('seconds: names %.1f, args %.1f, multicall+ext+http %.1f' % (t1 - t0, t2 - t1, t3 - t2))
@@ -1112,6 +1176,7 @@ def _explore_without_model(chk, wd):
     explore_args(chk, pool, facts, c, m, counters)
     explore_multicall(chk, logdir, ref, [], [], counters)
     explore_ext(chk, wd, logdir, ref, counters)
+    explore_arity(chk, pool, facts, counters)
     explore_http(chk, wd, logdir, ref, counters)
     chk.coverage['evaluations'] = len(c)
     chk.coverage['rule'] = 'translator rejected the source: model-independent assertions only'
